@@ -170,14 +170,15 @@ def templates():
     }
 
 
-def make_table(tpl, nrows, code, wvec=None):
+def make_table(tpl, nrows, code, wvec=None, ids=None):
     """code: tuple of per-row symbols (alternative position for logit, y-grid index for normal); wvec: per-row index
-    into WVALS for the column WG (None: WG = 1 everywhere)."""
+    into WVALS for the column WG (None: WG = 1 everywhere); ids: per-row identifier of the individual (column ID; None:
+    consecutive pairs of rows)."""
     rows = []
     for i in range(nrows):
         x1, x2, x3, w1, w2, w3 = ATTR[i]
         d = dict(X1=x1, X2=x2, X3=x3, W1=w1, W2=w2, W3=w3, U0=float(7 - i), CH=0.0, Y=0.0,
-                 WG=(1.0 if wvec is None else float(WVALS[wvec[i]])), ID=float(i // 2 + 1))
+                 WG=(1.0 if wvec is None else float(WVALS[wvec[i]])), ID=float(i // 2 + 1 if ids is None else ids[i]))
         if tpl['kind'] == 'logit':
             d['CH'] = float(tpl['alts'][code[i]][0])
         else:
@@ -189,9 +190,11 @@ def make_table(tpl, nrows, code, wvec=None):
 class Problem:
     """Plain-Python likelihood with closed-form derivatives w.r.t. ALL parameters (free and fixed)."""
 
-    def __init__(self, tpl, rows, weight=None):
+    def __init__(self, tpl, rows, weight=None, panel=False):
         """weight: None (the stated likelihood is the plain sum over the rows) or a factor c: the stated likelihood is
-        sum_i (c * WG_i) * loglike_i (the weight formula of the dictionary of formulas)."""
+        sum_i (c * WG_i) * loglike_i (the weight formula of the dictionary of formulas).  panel: the rows of one value of
+        the column ID form ONE observation (log of the product of the row likelihoods = sum of the row log likelihoods):
+        value, gradient and Hessian are those of the plain sum, the BHHH sums over the individuals."""
         self.kind = tpl['kind']
         self.K = len(tpl['params'])
         self.names = [p[0] for p in tpl['params']]
@@ -219,6 +222,9 @@ class Problem:
                 self.obs.append((z, r[col['Y']]))
         self.sigma_idx = tpl.get('sigma')
         self.w = [1.0 if weight is None else float(weight) * r[col['WG']] for r in rows]
+        self.groups = [r[col['ID']] for r in rows] if panel else None
+        if panel and weight is not None:
+            raise RuntimeError('harness: weighted panel reference not written')
 
     def full(self, xfree):
         b = list(self.init)
@@ -236,7 +242,8 @@ class Problem:
         g = [0.0] * nf
         H = [[0.0] * nf for _ in range(nf)]
         B = [[0.0] * nf for _ in range(nf)]
-        for ob, w in zip(self.obs, self.w):
+        gsum = {}
+        for n_, (ob, w) in enumerate(zip(self.obs, self.w)):
             if self.kind == 'logit':
                 Z, c = ob
                 V = [sum(z[k] * beta[k] for k in range(K)) for z in Z]
@@ -268,8 +275,18 @@ class Problem:
                             H[a][b_] -= w * (z[fr[a]] * z[fr[b_]] / (sg * sg))
             for a in range(nf):
                 g[a] += w * gn[a]
+            if self.groups is not None:
+                acc = gsum.setdefault(self.groups[n_], [0.0] * nf)
+                for a in range(nf):
+                    acc[a] += gn[a]
+                continue
+            for a in range(nf):
                 for b_ in range(nf):
                     B[a][b_] += w * gn[a] * gn[b_]
+        for acc in gsum.values():
+            for a in range(nf):
+                for b_ in range(nf):
+                    B[a][b_] += acc[a] * acc[b_]
         return ll, g, H, B
 
 
@@ -470,7 +487,7 @@ def build_biogeme(tpl, rows, start, lb, ub, variant, share=True, boot_samples=No
     import biogeme.biogeme as bb
     import biogeme.database as db
     from biogeme import models
-    from biogeme.expressions import Beta, Variable, log, PanelLikelihoodTrajectory
+    from biogeme.expressions import Beta, Variable, log, exp, PanelLikelihoodTrajectory
     from biogeme.parameters import Parameters
 
     algo, extra = VARIANTS[variant]
@@ -515,6 +532,9 @@ def build_biogeme(tpl, rows, start, lb, ub, variant, share=True, boot_samples=No
         sg = beta(tpl['sigma'])
         mu = lin(tpl['mean'])
         ll = -log(sg) - 0.5 * math.log(2.0 * math.pi) - ((Variable('Y') - mu) / beta(tpl['sigma'])) ** 2 / 2.0
+        if panel:
+            # the density of the observations of an individual is the product of the row densities
+            ll = log(PanelLikelihoodTrajectory(exp(ll)))
     kw = dict(generate_html=False, generate_pickle=False, save_iterations=False, number_of_threads=1,
               optimization_algorithm=algo)
     kw.update(extra)
@@ -1390,6 +1410,315 @@ def _iter_table(rec, task, tpl, rows, base):
         rec.sample(dict(base, part='iter', variants=[v[0] for v in status_variants(tpl)], depth=task['depth'], histories=len(seqs)))
 
 
+# =========================================================================== table edited under a live model
+# The stated likelihood is the formula applied to the database AS IT IS when the estimation is launched.  The table may
+# be edited through the Database interface (remove, scale_column) while the BIOGEME object built on it is alive, before
+# or after the object has been used; the reference applies the same edits to its own plain-Python copy of the table.
+EDIT_SCALES = [(0.5, 2.0), (2.0, 0.25), (0.5, 1.5), (4.0, 0.5), (0.25, 2.0)][_A]
+PANEL_IDS = {
+    # identifier of the individual per row (the first N entries for an N-row table); None = cross-sectional data
+    'pairs': (1, 1, 2, 2, 3, 3),
+    'uneven': (4, 4, 4, 2, 2, 7),     # sizes 3, 2, 1; the identifiers are not increasing: the map is built by sorting
+    'triples': (1, 1, 1, 2, 2, 2),
+}
+
+
+def model_columns(tpl):
+    """Columns of the table the likelihood depends on and that may be scaled (never the choice: alternative ids)."""
+    if tpl['kind'] == 'logit':
+        cols = [c for _, terms in tpl['alts'] for _, c in terms if c is not None]
+    else:
+        cols = [c for _, c in tpl['mean'] if c is not None] + ['Y']
+    return sorted(set(cols), key=cols.index)
+
+
+def sorted_as_panel(rows):
+    """The order of the rows after Database.panel(): stable sort on the identifier."""
+    i = COLUMNS.index('ID')
+    return sorted(rows, key=lambda r: r[i])
+
+
+def apply_edit(rows, op):
+    """Reference of one edit of the table.  'R:i,j' removes the rows that were rows i, j of the ORIGINAL table (they are
+    identified by the column U0 = 7 - i, never scaled); 'C:col:j' multiplies the column by EDIT_SCALES[j]."""
+    col = {c: i for i, c in enumerate(COLUMNS)}
+    if op[0] == 'R':
+        gone = {float(7 - int(i)) for i in op[2:].split(',') if i != ''}
+        return [list(r) for r in rows if r[col['U0']] not in gone]
+    _, c, j = op.split(':')
+    out = [list(r) for r in rows]
+    for r in out:
+        r[col[c]] = r[col[c]] * EDIT_SCALES[int(j)]
+    return out
+
+
+def removal_expression(op, nrows):
+    """The expression given to Database.remove for 'R:i,j,...': a comparison with a threshold when the rows form a tail or
+    a head of the original table, else the sum of the equality tests (non zero exactly on the rows to remove)."""
+    from biogeme.expressions import Variable
+    S = sorted(int(i) for i in op[2:].split(',') if i != '')
+    u = Variable('U0')
+    if not S:
+        return u > 100.0
+    if len(S) >= 2 and S == list(range(S[0], nrows)):
+        return u <= float(7 - S[0])
+    if len(S) >= 2 and S == list(range(0, S[-1] + 1)):
+        return u >= float(7 - S[-1])
+    e = None
+    for i in S:
+        t = (u == float(7 - i))
+        e = t if e is None else e + t
+    return e
+
+
+EDIT_PRE = {'quick': [[], ['E'], ['Q']], 'thorough': [[], ['E'], ['Q'], ['D0'], ['L1'], ['E', 'Q']]}
+EDIT_POST = {'quick': [['E'], ['Q'], ['D0', 'E']], 'thorough': [['E'], ['Q'], ['D0', 'E'], ['L1', 'Q'], ['E', 'E'], ['Q', 'E']]}
+
+
+def edit_sequences(tpl, nrows, tier):
+    """Every sequence of edits of the bound: ONE removal of EVERY subset of the rows but the whole table (the empty subset
+    included: an expression that is zero everywhere), ONE scaling of every model column by every scale; two edits:
+    (removal of a subset, scaling) in both orders (quick: subsets of one row, first column, one scale each; thorough:
+    every subset of at most 2 rows, every column, both scales) and (thorough) two removals of one row each."""
+    subsets = [S for r in range(0, nrows) for S in itertools.combinations(range(nrows), r)]
+    R = lambda S: 'R:' + ','.join(map(str, S))
+    cols = model_columns(tpl)
+    scalings = [f'C:{c}:{j}' for c in cols for j in range(len(EDIT_SCALES))]
+    out = [[R(S)] for S in subsets] + [[c] for c in scalings]
+    if tier == 'quick':
+        for S in subsets:
+            if len(S) == 1:
+                out.append([R(S), scalings[0]])
+                out.append([scalings[-1], R(S)])
+    else:
+        for S in subsets:
+            if 1 <= len(S) <= 2:
+                for c in scalings:
+                    out.append([R(S), c])
+                    out.append([c, R(S)])
+        for i in range(nrows):
+            for j in range(nrows):
+                if i != j:
+                    out.append([R((i,)), R((j,))])
+    return out
+
+
+def edit_histories(tpl, nrows, tier):
+    return [pre + ed + post for ed in edit_sequences(tpl, nrows, tier) for pre in EDIT_PRE[tier] for post in EDIT_POST[tier]]
+
+
+def edit_tables(tpl, rows, ops):
+    """The reference table after each operation of the history (list parallel to ops)."""
+    out = []
+    cur = rows
+    for op in ops:
+        if op[0] in 'RC' and ':' in op:
+            cur = apply_edit(cur, op)
+        out.append(cur)
+    return out
+
+
+def check_edit_history(rec, tpl, rows, panel, bname, lb, ub, bkind, algo, sidx, ops, case):
+    """Operations `ops` on ONE BIOGEME object and ITS database: E / Q / D0 / L1 as in check_history, 'R:...' =
+    database.remove(expression), 'C:col:j' = database.scale_column(col, EDIT_SCALES[j]).  Every estimation is judged by all
+    per-run clauses against the reference of the table as it is at that moment; every results object obtained earlier
+    keeps reporting the likelihood and derivatives of ITS table at ITS estimates."""
+    import numpy as np
+
+    tables = edit_tables(tpl, rows, ops)
+    if panel:
+        rows = sorted_as_panel(rows)
+        tables = [sorted_as_panel(t_) for t_ in tables]
+    # reference of every table on which an estimation is launched; a history that estimates on a table without a
+    # reference optimum is outside the domain
+    probs = {}
+    for op, tab in zip(ops, tables):
+        if op in ('E', 'Q'):
+            key = repr(tab)
+            if key not in probs:
+                pr = Problem(tpl, tab, panel=panel)
+                xf, why = free_optimum(pr) if len(tab) else (None, 'empty_table')
+                if xf is None:
+                    rec.count('edit_histories_outside_the_domain_' + why)
+                    rec.case(None, ('edit-rejected', case['model'], case['code'], list(ops), why), outcome=('edit-rejected', why))
+                    return
+                probs[key] = (pr, references(pr, lb, ub, xf))
+    prob0 = Problem(tpl, rows, panel=panel)
+    nf = len(prob0.free)
+    start = clip_start(STARTS[sidx][:nf], lb, ub)
+    p1 = clip_start(STARTS[(sidx + 1) % 3][:nf], lb, ub)
+    b, made = build_biogeme(tpl, rows, start, lb, ub, algo, panel=panel)
+    database = b.database
+    names_lib = list(b.free_beta_names)
+    free_names = [prob0.names[k] for k in prob0.free]
+    perm = [free_names.index(nm) for nm in names_lib]
+    to_lib = lambda x: np.array([float(x[pos]) for pos in perm])
+    fam = family_of(algo)
+    data_kind = 'panel' if panel else 'cross-section'
+    starts = [start]
+    held = []
+    done = []
+    kinds = ''
+    summary = []
+    idcol = COLUMNS.index('ID')
+    ctx = lambda: (f'[model={case["model"]} table={case["code"]} {data_kind} data'
+                   + (f' individuals={[r_[idcol] for r_ in rows]}' if panel else '')
+                   + f' bounds={bname} lb={lb} ub={ub} start={start} algorithm={algo}; operations so far on the one BIOGEME '
+                   f'object and its database={done} (R:i,j = database.remove of the rows i,j of the original table, C:col:j = '
+                   f'database.scale_column(col, {list(EDIT_SCALES)}[j]))]')
+
+    def later(clause, what, expected=None, observed=None):
+        rec.violation(f'C07|earlier-results:{clause}|later-op={done[-1][0]}', f'earlier-results:{clause}: {what} {ctx()}', case,
+                      expected=expected, observed=observed)
+
+    for t, op in enumerate(ops):
+        done.append(op)
+        kind = op[0]
+        first_new = len(held)
+        try:
+            if op in ('E', 'Q'):
+                mode = 'estimate' if op == 'E' else 'quick_estimate'
+                prob, refs = probs[repr(tables[t])]
+                pattern = f'live-model,{data_kind},edits={kinds or "none"}'
+
+                def viol(clause, what, expected=None, observed=None):
+                    rec.violation(f'C07|{clause}|family={fam}|{pattern}',
+                                  f'{clause}: {what} [entry={mode}; the table has {len(tables[t])} rows at this moment] {ctx()}',
+                                  case, expected=expected, observed=observed)
+
+                r = b.estimate() if op == 'E' else b.quick_estimate()
+                out = run_oracles(rec, viol, b, made, r, prob, refs, lb, ub, list(starts), algo, {}, mode, perm, names_lib,
+                                  True, 'edit:' + algo, pure=True)
+                rec.count('edit_estimations')
+                if kinds:
+                    rec.count('edit_estimations_on_an_edited_table')
+                    if 'C' in kinds:
+                        rec.count('edit_estimations_after_scale_column')
+                    if len(tables[t]) == len(rows):
+                        rec.count('edit_estimations_on_an_edited_table_with_the_original_number_of_rows')
+                    if panel and len(tables[t]) != len(rows) and (
+                            len({r_[idcol] for r_ in tables[t]}) == len({r_[idcol] for r_ in rows})):
+                        rec.count('edit_panel_estimations_after_removals_that_keep_every_individual')
+                    if panel and len({r_[idcol] for r_ in tables[t]}) != len({r_[idcol] for r_ in rows}):
+                        rec.count('edit_panel_estimations_after_the_removal_of_whole_individuals')
+                if out is None:
+                    summary.append((op, 'no-results'))
+                    break
+                if op == 'Q' and r.data.initLogLike is not None:
+                    # quick_estimate() calculates no initial log likelihood: its results carry the one an earlier
+                    # estimate() of the object has left.  The statement: the final one is not lower than the initial one.
+                    il = float(r.data.initLogLike)
+                    own = [prob.eval(s_, order=0)[0] for s_ in starts]
+                    if not any(_rel(il, v, max(1.0, abs(v))) <= 1e-9 for v in own):
+                        rec.count('quick_estimate_results_carrying_the_initial_log_likelihood_of_the_table_before_the_edit')
+                        if out['ll'] < il - 1e-9 * max(1.0, abs(il)):
+                            rec.violation('C07|final-below-initial|entry=quick_estimate|initLogLike left by estimate() on the table before the edit',
+                                          f'final-below-initial: the results of quick_estimate() report logLike {out["ll"]!r} next to '
+                                          f'initLogLike {il!r}; the likelihood of the table at this moment at the candidate starts '
+                                          f'{starts} is {own}: the initial value is the one an earlier estimate() has calculated on the '
+                                          f'table before the edit {ctx()}', case, expected=f'initLogLike None or in {own}, <= logLike',
+                                          observed=[il, out['ll']])
+                if op == 'E' and out['xs'] not in starts:
+                    starts.append(list(out['xs']))
+                held.append(dict(r=r, mode=mode, at=t, xs_lib=[float(v) for v in r.data.betaValues], prob=prob))
+                summary.append((op, [_r(v) for v in out['xs']], _r(out['ll']), out['conv']))
+            elif op == 'D0':
+                b.calculate_likelihood_and_derivatives(to_lib(start), scaled=False, hessian=True, bhhh=True)
+            elif op == 'L1':
+                b.calculate_likelihood(to_lib(p1), scaled=False)
+            elif kind == 'R':
+                database.remove(removal_expression(op, len(rows)))
+                kinds += 'R'
+            elif kind == 'C':
+                _, c, j = op.split(':')
+                database.scale_column(c, EDIT_SCALES[int(j)])
+                kinds += 'C'
+            else:
+                raise RuntimeError(f'harness: unknown operation {op}')
+        except Exception as e:  # noqa: BLE001
+            if isinstance(e, RuntimeError):
+                if str(e).startswith('harness:'):
+                    raise
+                rec.retire = True
+            rec.violation(f'C07|edit-history-operation-raised-{type(e).__name__}|op={kind}|{data_kind}',
+                          f'operation {op} raised {type(e).__name__}: {str(e)[:300]} {ctx()}', case, observed=repr(e)[:300])
+            summary.append((op, 'raised', type(e).__name__))
+            break
+        if kind in 'RC' and ':' in op:
+            # the harness's own reference of the table follows the database (guards the oracle, not the library's likelihood)
+            n_now = len(database.data.index)
+            if n_now != len(tables[t]):
+                rec.violation(f'C07|edited-table-size|op={kind}|{data_kind}', f'after {op} the database has {n_now} rows, the '
+                              f'reference table {len(tables[t])} {ctx()}', case, expected=len(tables[t]), observed=n_now)
+                break
+        for h in held[:first_new]:
+            data = h['r'].data
+            now = [float(v) for v in data.betaValues]
+            when = f' (results of operation #{h["at"] + 1} read after operation #{t + 1}={op})'
+            if now != h['xs_lib']:
+                later('estimates-changed', f'betaValues were {h["xs_lib"]}, are now {now}{when}', expected=h['xs_lib'], observed=now)
+            xs = [None] * nf
+            for pos, v in zip(perm, now):
+                xs[pos] = v
+            ref_ll, ref_g, ref_H, ref_B = h['prob'].eval(xs)
+            if not _rel(float(data.logLike), ref_ll, max(1.0, abs(ref_ll))) <= 1e-9:
+                later('loglike-not-the-likelihood-at-estimates', f'logLike {float(data.logLike)!r}, the likelihood of its table at '
+                      f'its estimates {xs} is {ref_ll!r}{when}', expected=ref_ll, observed=float(data.logLike))
+            if h['mode'] == 'estimate':
+                check_reported_derivatives(later, h['prob'], perm, data, xs, (ref_g, ref_H, ref_B), when=when)
+            rec.count('history_rechecks_of_earlier_results')
+    rec.case(('edit', case['model'], tuple(case['code']), case.get('ids'), bname, algo, sidx, tuple(ops)),
+             ('edit', case['model'], case['code'], case.get('ids'), bname, algo, sidx, list(ops), summary),
+             outcome=('edit', data_kind, kinds, fam, bkind, tuple(x[-1] for x in summary)))
+    rec.count('edit_histories')
+
+
+def edit_plan(tier):
+    """(model, rows, identifiers of the individuals or None, step through the table family, parts)."""
+    if tier == 'quick':
+        return [('L2', 6, 'pairs', 40, 8), ('N2', 5, 'uneven', 150, 6), ('N2', 5, None, 170, 6), ('L1', 6, None, 50, 8)]
+    return [('L2', 6, 'pairs', 12, 24), ('L2', 6, 'uneven', 14, 24), ('L1', 6, 'triples', 20, 24), ('N2', 5, 'uneven', 50, 16),
+            ('N2', 5, 'pairs', 60, 16), ('N2', 5, None, 70, 16), ('L1', 6, None, 20, 24), ('L3G', 6, 'pairs', 250, 24),
+            ('L2F', 6, None, 30, 24), ('N3', 5, None, 100, 16)]
+
+
+def _edit_table(rec, task, tpl, base):
+    k = task['k']
+    tier = task['tier']
+    nrows = task['nrows']
+    ids = None if task['ids'] is None else list(PANEL_IDS[task['ids']][:nrows])
+    panel = ids is not None
+    rows = make_table(tpl, nrows, base['code'], ids=ids)
+    if free_optimum(Problem(tpl, rows, panel=panel))[0] is None:
+        rec.count('edit_tables_rejected')
+        return
+    hs = edit_histories(tpl, nrows, tier)
+    part, parts = task['epart']
+    finals = {}
+    for j, ops in list(enumerate(hs))[part::parts]:
+        # the bounds are declared when the object is built; they are derived from the reference optimum of the table the
+        # LAST estimation of the history works on (none / upper bound active there / lower bound active there, rotating)
+        final = edit_tables(tpl, rows, ops)[-1]
+        key = repr(final)
+        if key not in finals:
+            finals[key] = free_optimum(Problem(tpl, final, panel=panel))[0] if final else None
+        xfin = finals[key]
+        if xfin is None:
+            rec.count('edit_histories_outside_the_domain_final_table')
+            rec.case(None, ('edit-rejected', task['model'], base['code'], ops), outcome=('edit-rejected', 'final'))
+            continue
+        cfgs = bound_configs(xfin, 'quick', k + j)
+        bname, lb, ub, bkind = [c for c in cfgs if c[0] == 'none' or c[3] == 'active'][(k + j // 2) % 3]
+        algo = ALGOS[(k + j) % len(ALGOS)]
+        sidx = (k + j // len(ALGOS)) % 3
+        case = dict(base, part='edit', ids=ids, bname=bname, lb=lb, ub=ub, bkind=bkind, algo=algo, sidx=sidx, ops=ops)
+        check_edit_history(rec, tpl, rows, panel, bname, lb, ub, bkind, algo, sidx, ops, case)
+    if part == 0:
+        rec.sample(dict(base, part='edit', ids=ids, histories=len(hs), edit_sequences=len(edit_sequences(tpl, nrows, tier)),
+                        before=EDIT_PRE[tier], after=EDIT_POST[tier]))
+
+
+
 # =========================================================================== tasks
 def model_plan(tier):
     """(model, rows in the table) per tier; the table family is ALL codes over those rows."""
@@ -1456,6 +1785,17 @@ def tasks(tier, seed):
                 out.append(dict(part='iter', model=model, nrows=nrows, first=i, codes=[list(codes[i])], tier=tier, k=k,
                                 depth=depth, ipart=[part, parts]))
             k += 1
+    # table edited through the Database interface under a live model: tables of a sub-family (cross-sectional and panel)
+    # x every history (operations before) + (edit sequence) + (operations after)
+    k = 0
+    for model, nrows, ids, step, parts in edit_plan(tier):
+        tpl = T[model]
+        codes = list(itertools.product(range(nsymbols(tpl)), repeat=nrows))
+        for i in range(step // 2, len(codes), step):
+            for part in range(parts):
+                out.append(dict(part='edit', model=model, nrows=nrows, ids=ids, first=i, codes=[list(codes[i])], tier=tier, k=k,
+                                epart=[part, parts]))
+            k += 1
     return out
 
 
@@ -1475,6 +1815,9 @@ def run_task(task):
         ti = task['first'] + off
         if task['part'] == 'wdict':
             _wdict_table(rec, task, tpl, dict(model=task['model'], nrows=task['nrows'], code=list(code)), ti)
+            continue
+        if task['part'] == 'edit':
+            _edit_table(rec, task, tpl, dict(model=task['model'], nrows=task['nrows'], code=list(code)))
             continue
         rows = make_table(tpl, task['nrows'], code)
         if task['part'] == 'iter':
@@ -1562,6 +1905,11 @@ def replay(case):
             os.chdir(here)
             shutil.rmtree(private, ignore_errors=True)
         return rec.violations
+    if case['part'] == 'edit':
+        rows = make_table(tpl, case['nrows'], case['code'], ids=case['ids'])
+        check_edit_history(rec, tpl, rows, case['ids'] is not None, case['bname'], case['lb'], case['ub'], case['bkind'],
+                           case['algo'], case['sidx'], case['ops'], case)
+        return rec.violations
     if case['part'] == 'wdict':
         rows = make_table(tpl, case['nrows'], case['code'], case['wvec'])
         prob = Problem(tpl, rows, weight=fdict_weight(case['fdict']))
@@ -1602,7 +1950,11 @@ def finalize(agg, tier, seed):
             'history_loose_tolerance_runs_stopping_away_from_the_maximum',
             'weighted_estimations_with_unequal_weights', 'estimations_of_a_dictionary_without_weight_formula',
             'iteration_file_histories', 'iteration_file_estimations_finding_a_file_that_names_a_fixed_parameter',
-            'iteration_file_estimations_started_from_the_file']
+            'iteration_file_estimations_started_from_the_file',
+            'edit_histories', 'edit_estimations_on_an_edited_table', 'edit_estimations_after_scale_column',
+            'edit_estimations_on_an_edited_table_with_the_original_number_of_rows',
+            'edit_panel_estimations_after_removals_that_keep_every_individual',
+            'edit_panel_estimations_after_the_removal_of_whole_individuals']
     for n in need:
         if agg.counts.get(n, 0) == 0 and not agg.harness_errors:
             agg.harness_errors.append((f'vacuous exploration: counter {n} is zero', {}))
